@@ -20,7 +20,7 @@ inductive Outcome (α : Type) where
   | ok (v : α)
   | err (e : ErrC)
   | panic (site : String)
-deriving Repr, Inhabited
+deriving Repr, Inhabited, DecidableEq
 
 namespace Outcome
 def map (f : α → β) : Outcome α → Outcome β
